@@ -10,6 +10,7 @@ from .struct import is_field, is_struct
 from .array import is_index, is_array
 from .ref import is_unionref, is_ref
 from .string import is_string
+from .typeutils import is_integer
 
 
 def is_compound(atype):
@@ -167,7 +168,7 @@ def gen_method_offset(path, conf):
         else:
             soffset = None
 
-        if type(soffset) is int:
+        if is_integer(soffset):  # (a numpy integer as well)
             offset += soffset
         elif type(soffset) is list:
             if offset > 0:
